@@ -50,7 +50,8 @@ def real_outcome_label(evaluator, fields):
 
 def check_program(item):
     """Worker: returns a picklable result dict."""
-    kind, prog, numeric, timeout_ms = item
+    kind, prog, numeric, timeout_ms = item[:4]
+    force = item[4] if len(item) > 4 else None
     common.setup_path()
     t0 = time.time()
     res = {"kind": kind, "numeric": numeric, "status": "ok", "paths": 0, "validated": 0,
@@ -70,6 +71,11 @@ def check_program(item):
     if gen.printed.strip():
         res["note"] = "lexer/parser printed: %r" % gen.printed.strip()[:120]
     sorts, env, conflicts = field_setup(prog, numeric)
+    if force:
+        conflicts = []
+        for name, srt in force.items():
+            sorts[name] = srt
+            env[name] = harness.sym_value("fld_" + name, srt, numeric)
     if conflicts:
         res["status"] = "skipped"
         res["note"] = "ill-typed family member (fields %s)" % conflicts
